@@ -360,3 +360,78 @@ func skipsNil(ds []*decl) {
 	}
 }
 `
+
+// selftestAnticipatory: the three seedless shape rules.
+func selftestAnticipatory(check func(name string, ok bool, format string, args ...any)) {
+	mp, err := loadSnippet(selftestAnticipatorySrc)
+	if err != nil {
+		check("snippet anticipatory", false, "%v", err)
+		return
+	}
+	pk := &packages.Package{Syntax: []*ast.File{mp.File}, TypesInfo: mp.Info}
+	names := func(nodes []ast.Node) []string {
+		var out []string
+		for _, n := range nodes {
+			if fd := enclosingDecl(mp.File, n); fd != nil {
+				out = append(out, fd.Name.Name)
+			}
+		}
+		return out
+	}
+	_, so := selfOperands(pk)
+	got := names(so)
+	check("selfOperands", len(got) == 2 && got[0] == "selfCompare" && got[1] == "selfCall", "identical operands in %v (want selfCompare, selfCall; not nanTest, otherCompare)", got)
+	_, lk := lockKindMismatch(pk)
+	var lkIn []string
+	for _, fd := range lk {
+		lkIn = append(lkIn, fd.Name.Name)
+	}
+	check("lockKindMismatch", len(lkIn) == 1 && lkIn[0] == "readLockWriteUnlock", "mismatched in %v (want readLockWriteUnlock only)", lkIn)
+	fns, err := ssaSnippet(selftestAnticipatorySrc)
+	if err != nil {
+		check("ssa snippet anticipatory", false, "%v", err)
+		return
+	}
+	for name, want := range map[string]int{"dropsCompact": 2, "keepsCompact": 0} {
+		_, bad := pureResultDropped(fns[name])
+		check("pureResultDropped/"+name, len(bad) == want, "%d reported (want %d)", len(bad), want)
+	}
+}
+
+const selftestAnticipatorySrc = `package snippet
+
+import (
+	"slices"
+	"strings"
+	"sync"
+)
+
+type key struct{ t int }
+
+func equal(a, b key) bool { return a.t == b.t }
+func selfCompare(ks []key, i, j int) bool { return ks[i].t > ks[i].t }
+func selfCall(prev, cur key) bool       { return equal(prev, prev) }
+func nanTest(x float64) bool            { return x != x }
+func otherCompare(ks []key, i, j int) bool { return ks[i].t > ks[j].t && equal(ks[i], ks[j]) }
+
+type guarded struct {
+	mu sync.RWMutex
+	n  int
+}
+
+func (g *guarded) readLockWriteUnlock() int { g.mu.RLock(); defer g.mu.Unlock(); return g.n }
+func (g *guarded) paired() int              { g.mu.RLock(); defer g.mu.RUnlock(); return g.n }
+func (g *guarded) wrapper()                 { g.mu.Lock() }
+
+func dropsCompact(xs []string, p string) ([]string, string) {
+	slices.Sort(xs)
+	slices.Compact(xs)
+	strings.TrimSuffix(p, ".proto")
+	return xs, p
+}
+func keepsCompact(xs []string, p string) ([]string, string) {
+	slices.Sort(xs)
+	xs = slices.Compact(xs)
+	return xs, strings.TrimSuffix(p, ".proto")
+}
+`
